@@ -170,6 +170,7 @@ class World:
                 return t
 
         eg = dict(cfg.get("env_globals") or {})
+        self.env_globals_now = dict(eg)   # (the plan itself is never mutated by a run)
         self.env = ObsEnv(loader=self.loader, globals=dict(eg))
         self.cenv = Environment(loader=self.cloader, globals=dict(eg))
         self.model = LruModel(self.capacity)
@@ -664,7 +665,7 @@ def do_render(w: World, op: dict, t, twin):
                 # name, so only attribution (R4) is checked on the text.
                 w.count("seq_diff_skipped_ambiguous")
                 if out[0] == "ok":
-                    check_tokens(out[1], d, op.get("g_bound"), w.cfg.get("env_globals") or {})
+                    check_tokens(out[1], d, op.get("g_bound"), op.get("env_g_bound", w.env_globals_now))
                 return
             seen[cn] = res
     with w.with_clone(stale):
@@ -858,7 +859,7 @@ def do_par(w: World, op: dict):
                 if lk not in stale:
                     stale.append(lk)
         if res[0] == "ok":
-            check_tokens(res[1], tk["data"], tk.get("g"), w.cfg.get("env_globals") or {})
+            check_tokens(res[1], tk["data"], tk.get("g"), w.env_globals_now)
         if res[0] == "err" and res[1] == "CancelledError":
             if i not in cancelled_targets:
                 # nobody cancelled this caller: another caller's cancellation reached it
@@ -1007,13 +1008,14 @@ def execute(plan: dict) -> dict:
                 if k == "load":
                     t, twin = do_load(w, op)
                     if t is not None:
-                        w.handles[op["h"]] = (t, twin, op.get("g"))
+                        # a loaded template carries the environment globals as of load time
+                        w.handles[op["h"]] = (t, twin, op.get("g"), dict(w.env_globals_now))
                     else:
                         w.handles.pop(op["h"], None)
                 elif k == "render":
                     h = w.handles.get(op["h"])
                     if h is not None:
-                        do_render(w, {**op, "g_bound": h[2]}, h[0], h[1])
+                        do_render(w, {**op, "g_bound": h[2], "env_g_bound": h[3]}, h[0], h[1])
                 elif k == "lr":
                     t, twin = do_load(w, op)
                     if t is not None:
@@ -1031,11 +1033,11 @@ def execute(plan: dict) -> dict:
                     if op["v"] is None:      # the global is removed again (globals may become empty)
                         w.env.globals.pop("gv", None)
                         w.cenv.globals.pop("gv", None)
-                        w.cfg["env_globals"] = {}
+                        w.env_globals_now = {}
                     else:
                         w.env.globals["gv"] = op["v"]
                         w.cenv.globals["gv"] = op["v"]
-                        w.cfg["env_globals"] = {**(w.cfg.get("env_globals") or {}), "gv": op["v"]}
+                        w.env_globals_now = {**w.env_globals_now, "gv": op["v"]}
                     w.count("env_globals_changed")
                 elif k == "par":
                     do_par(w, op)
